@@ -97,9 +97,7 @@ class Prov(object):
         def go(e, d):
             for n in ast.walk(e):
                 if isinstance(n, ast.Call):
-                    cn = nf.callee_name(n)
-                    if cn:
-                        out.add(cn)
+                    out.add(nf.callee_name(n) or unparse(n.func))
                 if isinstance(n, ast.Name) and isinstance(n.ctx, ast.Load) and n.id not in seen and d > 0:
                     seen.add(n.id)
                     for v in self.defs.get(n.id, []):
